@@ -133,6 +133,20 @@ func c15ResEval(cs *core.Case) (bool, string, string) {
 	if !l.Is(s) {
 		return false, "C15/result/Lookup-not-Is", fmt.Sprintf("input %s: Lookup(%q) = %s does not satisfy Is(%q)", core.Quote(cs.In), bare(s), l.String(), s)
 	}
+	// the result Is its own bare type, however decorated, and EqualsAny agrees
+	if len(cs.Strs) > 0 && cs.Strs[0] != "" {
+		want := cs.Strs[0]
+		if bare(s) == want {
+			for _, dec := range []string{want, strings.ToUpper(want), " " + want + "\t", want + "; charset=utf-8"} {
+				if !d.Is(dec) {
+					return false, "C15/result/not-Is-own-type", fmt.Sprintf("input %s: result %q does not satisfy Is(%q)", core.Quote(cs.In), s, dec)
+				}
+				if !mimetype.EqualsAny(s, "x/never", dec) {
+					return false, "C15/result/not-EqualsAny-own-type", fmt.Sprintf("input %s: EqualsAny(%q, ..., %q) is false", core.Quote(cs.In), s, dec)
+				}
+			}
+		}
+	}
 	for p := d.Parent(); p != nil; p = p.Parent() {
 		if !p.Is(p.String()) {
 			return false, "C15/result/ancestor-not-Is-own-String", p.String()
@@ -276,7 +290,27 @@ func c15Run(c *core.Ctx) {
 		}
 		c.SampleCase("result-laws", res)
 	}
+	res.Strs = []string{""}
 	for _, ctxT := range c02Contexts {
+		res.Strs[0] = "text/html"
+		if strings.HasPrefix(ctxT, "<?xml") {
+			res.Strs[0] = "text/xml"
+		}
+		// labels that smuggle separators / parameters / a second charset
+		if c.Mine(3) {
+			for _, l := range injectionLabels {
+				i := strings.LastIndex(ctxT, "L")
+				for i > 0 && !strings.ContainsAny(ctxT[i+1:i+2], "\"'>;") {
+					i = strings.LastIndex(ctxT[:i], "L")
+				}
+				res.In, res.Limit = []byte(ctxT[:i]+l+ctxT[i+1:]), 0
+				c.R.States++
+				c.R.Transitions++
+				c.R.Evals++
+				c.R.Nontrivial++
+				c.Check(res)
+			}
+		}
 		for _, s1 := range sigma02 {
 			if !c.Next() || c.Expired() {
 				continue
